@@ -44,7 +44,7 @@ def related_props(patch, target):
         p = json.loads(l)
         if p["id"] != target and files & set(p.get("anchors", {}).get("files", [])):
             props.append(p["id"])
-    return props[:4], sorted(files)
+    return props[:3], sorted(files)
 
 
 def main():
